@@ -18,6 +18,7 @@ func (p *Program) listenForResize(done chan struct{}) {
 
 	defer func() {
 		signal.Stop(sig)
+		verifPause("resize: exit")
 		close(done)
 	}()
 
